@@ -330,6 +330,25 @@ def _duplicates(tier):
 POOL = ['k1', 'K2', 'knuth84', 'Lam:86', 'x', 'Y', 'book-1', 'Proc.A', 'zeta', 'Eta']
 
 
+def _competing(tier):
+    """several uncited parents competing for the threshold: children of two (thorough: also three) parents, cited in every
+    order (all permutations of every subset), so that a parent referenced first need not reach the threshold first."""
+    cases = []
+    per = 2 if tier == 'quick' else 3
+    for nparents in ((2,) if tier == 'quick' else (2, 3)):
+        parents = ['P%d' % i for i in range(1, nparents + 1)]
+        children = [('c%d%d' % (i, j), 'P%d' % i) for i in range(1, nparents + 1) for j in range(1, (per if nparents == 2 else 2) + 1)]
+        file = [_entry(k, x) for k, x in children] + [_entry(p, None) for p in parents]
+        names = [k for k, _x in children]
+        for r in range(2, len(names) + 1):
+            if len(names) > 5 and r not in (len(names) - 1, len(names)):
+                continue
+            for cits in itertools.permutations(names, r):
+                for m in (2, 3):
+                    cases.append({'op': 'resolve', 'file': file, 'citations': list(cits), 'min_crossrefs': m})
+    return cases
+
+
 def _variant(rng, k):
     r = rng.random()
     if r < 0.6:
@@ -372,10 +391,13 @@ def gen_cases(tier, rng, info):
     n_ex = len(cases)
     dup = _duplicates(tier)
     cases += dup
+    comp = _competing(tier)
+    cases += comp
     info['exhaustive'] = True
     info['scope'] = ('every file of <=%d entries over keys %r x crossref in {none, each key, each key in the other case, zz} x every citation '
                      'list of length <=3 over [a, B, c, A, q, *] x min_crossrefs 1..3: %d cases; duplicate-key files: %d cases; '
-                     'each case observed unfiltered, filtered and through both engines' % (nmax, KEYS[:nmax], n_ex, len(dup)))
+                     'competing uncited parents (children of 2-3 parents cited in every order, min_crossrefs 2..3): %d cases; '
+                     'each case observed unfiltered, filtered and through both engines' % (nmax, KEYS[:nmax], n_ex, len(dup), len(comp)))
     nrand = 3000 if tier == 'quick' else 60000
     for _ in range(nrand):
         cases.append(_random_case(rng))
